@@ -71,6 +71,15 @@ for _b in BASES:
     _NEAR.append(dict(when="%r * 0.99 <= value and value <= %r * 1.01" % (_d, _d), returns="(real,int,int,int)",
                       ensures=[("analysed-as-the-single-dotted-value", "result[0] == %r and result[1] == 1 and "
                                                                        "result[2] == 1 and result[3] == 1" % _b)]))
+# ... the tuplets are undotted recognised values too: within 1% of the triplet, quintuplet or septuplet of a base the
+# analysis gives that base itself (the table's number, not one computed back from the value) and that ratio
+for _b in BASES:
+    for _r0, _r1, _what in ((3, 2, "triplet"), (5, 4, "quintuplet"), (7, 4, "septuplet")):
+        _t = _b * _r0 / float(_r1)
+        _NEAR.append(dict(when="%r * 0.99 <= value and value <= %r * 1.01" % (_t, _t), returns="(real,int,int,int)",
+                          ensures=[("analysed-as-the-%s-of-the-base" % _what,
+                                    "result[0] == %r and result[1] == 0 and result[2] == %d and result[3] == %d"
+                                    % (_b, _r0, _r1))]))
 CONTRACTS[MV + "determine"] = dict(
     params={"value": "real"},
     requires="value > 0 and " + " or ".join("(%s)" % c["when"] for c in _NEAR),
